@@ -75,6 +75,27 @@ func (c *Ctx) bocPrefixFlags() {
 		}
 	}
 	// the magic a predecessor block was reached under
+	// eqMagic: v is bytes.Equal(x, G) with G one of the magic prefixes: the prefix and the compared value
+	eqMagic := func(v ssa.Value) (string, ssa.Value) {
+		cl := callOf(v)
+		if cl == nil {
+			return "", nil
+		}
+		q := callQName(&cl.Call)
+		if q != "bytes.Equal" && q != "crypto/subtle.ConstantTimeCompare" {
+			return "", nil
+		}
+		for i, a := range cl.Call.Args {
+			if u, ok := a.(*ssa.UnOp); ok && u.Op == token.MUL {
+				if g, ok := u.X.(*ssa.Global); ok {
+					if h := c.globalBytesHex("boc", g); h != "" && len(cl.Call.Args) == 2 {
+						return h, cl.Call.Args[1-i]
+					}
+				}
+			}
+		}
+		return "", nil
+	}
 	magicOf := func(b *ssa.BasicBlock) string {
 		for _, ft := range factsAt(r, b) {
 			if !ft.Truth {
@@ -118,6 +139,30 @@ func (c *Ctx) bocPrefixFlags() {
 			pred := ph.Block().Preds[i]
 			// facts at the predecessor include the comparison that selected it (pred is the then-block)
 			m := magicOf(pred)
+			if m == "" && len(pred.Preds) > 1 {
+				// one branch for several prefixes (case A, B:): entered from the true edge of each comparison; under
+				// each prefix a flag may be the constant, or "the prefix equals P" - true for P, false for the others
+				for _, pp := range pred.Preds {
+					iff := lastIf(pp)
+					if iff == nil || pp.Succs[0] != pred {
+						continue
+					}
+					m2, cmpd := eqMagic(iff.Cond)
+					w, lean := want[m2]
+					if !lean {
+						continue
+					}
+					n++
+					v, known := constBool(e)
+					if !known {
+						if m3, cmpd3 := eqMagic(e); m3 != "" && cmpd3 == cmpd {
+							v, known = m3 == m2, true
+						}
+					}
+					c.check(known && v == w[ri], R, name+" under prefix "+m2, ph.Pos(), fmt.Sprintf("%v under this prefix, as the constructor implies", w[ri]), fmt.Sprintf("parseBocHeader: under magic prefix %s the %s flag is %s, but the constructor of block.tlb implies %v: a bag-of-cells written by another implementation with this prefix is misread (index taken for cell data / CRC trailer not checked or demanded where there is none)", m2, name, shape(e, 2), w[ri]))
+				}
+				continue
+			}
 			w, lean := want[m]
 			if !lean {
 				continue
@@ -277,6 +322,7 @@ func (c *Ctx) parserDepthBound() {
 	// the limit test: in DeserializeBoc, or in the unexported helper that holds its linking loop
 	f := entry
 	var dIA *ssa.IndexAddr
+	var acc *ssa.Phi
 	for _, g := range c.helperClosure(entry, 2, func(h *ssa.Function) bool { return plainHelper(h) == nil }) {
 		for _, b := range g.Blocks {
 			iff := lastIf(b)
@@ -302,6 +348,17 @@ func (c *Ctx) parserDepthBound() {
 						dIA = ia
 						f = g
 					}
+				}
+				// the depth accumulated in a local while the children are linked, and written to the cell's slot
+				// of the depth slice: the test reads the local
+				if ph, ok := stripConv(side).(*ssa.Phi); ok && inLoop(ph.Block()) {
+					allInstrs(g, func(_ *ssa.BasicBlock, in ssa.Instruction) {
+						if st, ok := in.(*ssa.Store); ok && stripConv(st.Val) == ssa.Value(ph) {
+							if ia, ok := st.Addr.(*ssa.IndexAddr); ok {
+								dIA, acc, f = ia, ph, g
+							}
+						}
+					})
 				}
 			}
 		}
@@ -375,9 +432,85 @@ func (c *Ctx) parserDepthBound() {
 		return
 	}
 	found := false
+	// the accumulator's phis (loop header and merge points)
+	accSet := map[ssa.Value]bool{}
+	if acc != nil {
+		var grow func(p *ssa.Phi)
+		grow = func(p *ssa.Phi) {
+			if accSet[p] {
+				return
+			}
+			accSet[p] = true
+			for _, e := range p.Edges {
+				if q, ok := stripConv(e).(*ssa.Phi); ok {
+					grow(q)
+				}
+			}
+		}
+		grow(acc)
+	}
+	// term: a comparison operand as (parent depth | child depth) + k
+	term := func(v ssa.Value, r ssa.Value) (parent bool, k int64, ok bool) {
+		if accSet[stripConv(v)] {
+			return true, 0, true
+		}
+		ix, kk, ok := elem(v)
+		if !ok {
+			return false, 0, false
+		}
+		if ix == I {
+			return true, kk, true
+		}
+		if ix == r {
+			return false, kk, true
+		}
+		return false, 0, false
+	}
+	var checkUpdate func(pos token.Pos, b *ssa.BasicBlock, r ssa.Value, k int64, viaMax bool)
+	var pending []func()
+	// accumulator form: every value that enters the accumulator is the cell's recorded depth (or zero), the
+	// accumulator itself, or a child's depth + k taken under the same comparison
+	for p := range accSet {
+		ph := p.(*ssa.Phi)
+		for ei, e := range ph.Edges {
+			e = stripConv(e)
+			if accSet[e] {
+				continue
+			}
+			if _, isK := constInt(e); isK {
+				continue
+			}
+			if ix, kk, ok := elem(e); ok {
+				if ix == I && kk == 0 {
+					continue
+				}
+				if children[ix] {
+					pos, pb, r0, k0 := e.Pos(), ph.Block().Preds[ei], ix, kk
+					pending = append(pending, func() { checkUpdate(pos, pb, r0, k0, false) })
+					continue
+				}
+			}
+			if cl := callOf(e); cl != nil {
+				if bi, ok := cl.Call.Value.(*ssa.Builtin); ok && bi.Name() == "max" {
+					okMax := false
+					for _, a := range cl.Call.Args {
+						if ix, kk, ok := elem(a); ok && children[ix] {
+							okMax = true
+							pos, pb, r0, k0 := e.Pos(), ph.Block().Preds[ei], ix, kk
+							pending = append(pending, func() { checkUpdate(pos, pb, r0, k0, true) })
+						}
+					}
+					if okMax {
+						continue
+					}
+				}
+			}
+			c.bad(R, "depth accumulator takes only depths", e.Pos(), "DeserializeBoc: the local depth the limit tests also takes "+shape(e, 3)+", which is neither the cell's recorded depth nor a child's depth + k (undecided)")
+		}
+	}
 	allInstrs(f, func(b *ssa.BasicBlock, in ssa.Instruction) {
 		st, ok := in.(*ssa.Store)
-		if !ok {
+		if !ok || acc != nil {
 			return
 		}
 		ia, ok := st.Addr.(*ssa.IndexAddr)
@@ -403,6 +536,10 @@ func (c *Ctx) parserDepthBound() {
 		if r == nil {
 			return
 		}
+		pending = append(pending, func() { checkUpdate(st.Pos(), b, r, k, viaMax) })
+	})
+	checkUpdate = func(stPos token.Pos, b *ssa.BasicBlock, r ssa.Value, k int64, viaMax bool) {
+		st := posHolder{stPos}
 		found = true
 		c.check(k >= 1, R, "a parent is deeper than its child", st.Pos(), fmt.Sprintf("depths[i] = depths[r] + %d", k), fmt.Sprintf("DeserializeBoc: the depth of a cell is set to its child's depth + %d; it must grow by at least one per level, otherwise the maxDepth test never fires and a long chain of cells exhausts the stack of the recursive hasher/printer", k))
 		if viaMax {
@@ -417,12 +554,9 @@ func (c *Ctx) parserDepthBound() {
 			if !ok {
 				continue
 			}
-			lx, lk, ok1 := elem(bo.X)
-			rx, rk, ok2 := elem(bo.Y)
-			if !ok1 || !ok2 {
-				continue
-			}
-			if !((lx == r && rx == I) || (lx == I && rx == r)) {
+			lp, lk, ok1 := term(bo.X, r)
+			rp, rk, ok2 := term(bo.Y, r)
+			if !ok1 || !ok2 || lp == rp {
 				continue
 			}
 			sawCmp = true
@@ -448,7 +582,7 @@ func (c *Ctx) parserDepthBound() {
 			// and it must compare in the right direction: true when the child is deeper
 			// (child = parent + 5): evaluate with depths[r] = depths[i] + 5
 			var lv, rv int64 = lk, rk
-			if lx == r {
+			if !lp {
 				lv += 5
 			} else {
 				rv += 5
@@ -477,7 +611,10 @@ func (c *Ctx) parserDepthBound() {
 			}
 		}
 		c.check(sawCmp && okGuard, R, "the update is taken whenever the child is at least as deep", st.Pos(), "guard true for depths[r] == depths[i] and for depths[r] > depths[i]", "DeserializeBoc: the depth update is "+map[bool]string{true: "guarded by " + desc + ", which is false when the child is exactly as deep as the depth recorded so far (or deeper)", false: "not guarded by a comparison of the two depths the rule can read"}[sawCmp]+": a chain of cells keeps depth 0, the maxDepth test never fires, and hashing or printing the result recurses as deep as the input is long")
-	})
+	}
+	for _, run := range pending {
+		run()
+	}
 	if !found {
 		c.bad(R, "depth of a cell is derived from its children", f.Pos(), "DeserializeBoc: no store depths[i] = depths[child] + k found for the slice the ErrDepthIsTooBig test reads: the limit tests a value that does not follow the tree")
 	}
@@ -909,3 +1046,8 @@ func (c *Ctx) hashIndexCounter() {
 		c.bad(R, "the previous hash is found by the significant-level counter", f.Pos(), "newImmutableCell no longer indexes imm.hashes with a computed position (undecided)")
 	}
 }
+
+// posHolder gives a plain position the Pos() method the rule texts above use.
+type posHolder struct{ p token.Pos }
+
+func (h posHolder) Pos() token.Pos { return h.p }
